@@ -31,7 +31,6 @@ theorem HcInv.setQueues {s : State F} (h : HcInv s) (pe : List PEntry) (re : Arr
   fqt := h.fqt
   pr := h.pr
   rate := h.rate
-  rmax := h.rmax
   sync := h.sync
   clock := h.clock
 
@@ -200,7 +199,6 @@ theorem HcInv.setSender {s : State F} (h : HcInv s) (ps : PSend.State) (pe : Lis
   fqt := h.fqt
   pr := h.pr
   rate := h.rate
-  rmax := h.rmax
   sync := h.sync
   clock := h.clock
 
@@ -336,7 +334,7 @@ theorem emitSyncFrame_ok (s : State F) (h : HcInv s) :
   rw [if_neg hs]
   simp only []
   have hsent : ∀ A : Int, HcInv ({ s with flushAlloc := A, syncTimeoutBase := s.nowMs } : State F) :=
-    fun A => h.emitStep ⟨rfl, rfl, rfl, rfl, rfl, rfl, rfl, rfl, rfl⟩ h.fq h.fqt h.rate h.rmax
+    fun A => h.emitStep ⟨rfl, rfl, rfl, rfl, rfl, rfl, rfl, rfl, rfl⟩ h.fq h.fqt h.rate
       (Nat.le_refl _)
   repeat' split
   all_goals first
